@@ -328,6 +328,20 @@ func fzFileShapes() []fzFileShape {
 		{name: "import-dot", raw: strings.Replace(fzValidFile, "package sc\n", "package sc\n\nimport . \"vb/ext\"\n\nvar _ = Pub{}\n", 1)},
 		{name: "import-bad-path", raw: strings.Replace(fzValidFile, "package sc\n", "package sc\n\nimport \"\"\n", 1)},
 		{name: "import-relative", raw: strings.Replace(fzValidFile, "package sc\n", "package sc\n\nimport \"../ext\"\n", 1)},
+		{name: "generate-line-as-package-doc", raw: strings.Replace(fzValidFile, "package sc\n", "//go:generate go run github.com/reedom/convergen\npackage sc\n", 1)},
+		{name: "build-tag-adjacent-to-package", raw: strings.Replace(fzValidFile, "//go:build convergen\n\n", "//go:build convergen\n", 1)},
+		{name: "old-build-tag-adjacent-to-package", raw: strings.Replace(fzValidFile, "//go:build convergen\n\n", "// +build convergen\n", 1)},
+		{name: "generate-line-with-text-as-package-doc", raw: strings.Replace(fzValidFile, "package sc\n", "// Package sc.\n//go:generate go run github.com/reedom/convergen\npackage sc\n", 1)},
+		{name: "generate-line-as-method-doc", raw: strings.Replace(fzValidFile, "\t// :typecast\n\t// :conv convIS ID Extra\n", "\t//go:generate x\n", 1)},
+		{name: "generate-line-in-method-doc", raw: strings.Replace(fzValidFile, "\t// :typecast\n", "\t// :typecast\n\t//go:generate x\n", 1)},
+		{name: "generate-line-as-iface-doc", raw: strings.Replace(fzValidFile, "// Convergen is the converter interface of this case.\n", "//go:generate go run github.com/reedom/convergen\n", 1)},
+		{name: "generate-line-as-func-doc", raw: strings.Replace(fzValidFile, "func convIS", "//go:generate x\nfunc convIS", 1)},
+		{name: "generate-line-as-first-func-doc", raw: strings.Replace(fzValidFile, "// Convergen is the", "//go:generate x\nfunc first() {}\n\n// Convergen is the", 1)},
+		{name: "generate-line-as-trailing-comment", raw: strings.Replace(fzValidFile, "AtoD(*SA) *DA\n", "AtoD(*SA) *DA //go:generate x\n", 1)},
+		{name: "generate-line-as-field-doc", raw: fzValidFile + "\ntype holder struct {\n\t//go:generate x\n\tF int //go:generate y\n}\n"},
+		{name: "generate-line-as-import-doc", raw: strings.Replace(fzValidFile, "package sc\n", "package sc\n\nimport (\n\t//go:generate x\n\t_ \"vb/ext\" //go:generate y\n)\n", 1)},
+		{name: "generate-line-on-grouped-iface", raw: strings.Replace(strings.Replace(fzValidFile, "type Convergen interface {", "//go:generate x\ntype (\n// Convergen doc.\nConvergen interface {", 1), "\n}\n\nfunc convIS", "\n}\n)\n\nfunc convIS", 1)},
+		{name: "generate-line-last-in-file", raw: fzValidFile + "\n//go:generate x\n"},
 		{name: "go-generate-line", raw: strings.Replace(fzValidFile, "package sc\n", "package sc\n\n//go:generate go run github.com/reedom/convergen\n", 1)},
 		{name: "cgo-like-comment", raw: strings.Replace(fzValidFile, "package sc\n", "package sc\n\n/*\n#include <stdio.h>\n*/\n", 1)},
 		{name: "type-errors-elsewhere", raw: fzValidFile + "\nfunc broken() int { return \"s\" + 1 }\nvar u Undefined\n"},
